@@ -1,0 +1,141 @@
+//! Verification hooks (compiled only with `--cfg graphql_client_verif`).
+//!
+//! Event log of the two process-wide caches, taken at their linearization points (under the
+//! cache lock), and a turn controller that lets a harness force the order in which threads
+//! acquire the cache locks. Nothing here changes what the library computes.
+
+use std::sync::atomic::{AtomicU64, Ordering};
+use std::sync::{Condvar, Mutex};
+
+static SEQ: AtomicU64 = AtomicU64::new(0);
+static EVENTS: Mutex<Vec<String>> = Mutex::new(Vec::new());
+static SCHEDULE: Mutex<Option<(Vec<u64>, usize)>> = Mutex::new(None);
+static TURN: Condvar = Condvar::new();
+
+thread_local! {
+    static THREAD_ID: std::cell::Cell<u64> = const { std::cell::Cell::new(0) };
+}
+
+/// Name the current thread in the event log and in schedules.
+pub fn set_thread_id(id: u64) {
+    THREAD_ID.with(|t| t.set(id));
+}
+
+fn thread_id() -> u64 {
+    THREAD_ID.with(|t| t.get())
+}
+
+fn lock_ignoring_poison<T>(m: &Mutex<T>) -> std::sync::MutexGuard<'_, T> {
+    m.lock().unwrap_or_else(|e| e.into_inner())
+}
+
+fn json_escape(s: &str) -> String {
+    let mut out = String::with_capacity(s.len() + 2);
+    for c in s.chars() {
+        match c {
+            '"' => out.push_str("\\\""),
+            '\\' => out.push_str("\\\\"),
+            '\n' => out.push_str("\\n"),
+            '\r' => out.push_str("\\r"),
+            '\t' => out.push_str("\\t"),
+            c if (c as u32) < 0x20 => out.push_str(&format!("\\u{:04x}", c as u32)),
+            c => out.push(c),
+        }
+    }
+    out
+}
+
+/// Append one event to the log. Called while the cache lock protecting the change is held.
+pub fn emit(event: &str, cache: &str, key: &std::path::Path) {
+    let seq = SEQ.fetch_add(1, Ordering::SeqCst);
+    let line = format!(
+        "{{\"seq\":{},\"thread\":\"t{}\",\"event\":\"{}\",\"cache\":\"{}\",\"key\":\"{}\",\"panicking\":{}}}",
+        seq,
+        thread_id(),
+        event,
+        cache,
+        json_escape(&key.display().to_string()),
+        std::thread::panicking()
+    );
+    lock_ignoring_poison(&EVENTS).push(line);
+}
+
+/// Drain the event log (JSON lines, in sequence order).
+pub fn take_events() -> Vec<String> {
+    std::mem::take(&mut *lock_ignoring_poison(&EVENTS))
+}
+
+/// Install (or clear) the order in which threads must acquire cache locks.
+pub fn set_schedule(order: Option<Vec<u64>>) {
+    *lock_ignoring_poison(&SCHEDULE) = order.map(|o| (o, 0));
+    TURN.notify_all();
+}
+
+/// Held from just before `lock()` until the lock is acquired (or the attempt unwinds).
+pub struct Turn {
+    advanced: bool,
+}
+
+impl Turn {
+    fn advance(&mut self) {
+        if !self.advanced {
+            self.advanced = true;
+            let mut s = lock_ignoring_poison(&SCHEDULE);
+            if let Some((_, pos)) = s.as_mut() {
+                *pos += 1;
+            }
+            TURN.notify_all();
+        }
+    }
+
+    /// The lock has been acquired: let the next thread of the schedule proceed.
+    pub fn acquired(&mut self) {
+        self.advance();
+    }
+}
+
+impl Drop for Turn {
+    fn drop(&mut self) {
+        self.advance();
+    }
+}
+
+/// Wait until the schedule says it is this thread's turn to take a cache lock.
+pub fn wait_turn() -> Turn {
+    let me = thread_id();
+    let mut s = lock_ignoring_poison(&SCHEDULE);
+    loop {
+        let proceed = match s.as_ref() {
+            None => true,
+            Some((order, pos)) => *pos >= order.len() || order[*pos] == me,
+        };
+        if proceed {
+            let scheduled = matches!(s.as_ref(), Some((order, pos)) if *pos < order.len());
+            return Turn {
+                advanced: !scheduled,
+            };
+        }
+        s = TURN
+            .wait_timeout(s, std::time::Duration::from_secs(20))
+            .map(|(g, _)| g)
+            .unwrap_or_else(|e| e.into_inner().0);
+    }
+}
+
+/// Emits `Release` when dropped, i.e. just before the cache lock is released.
+pub struct Held<'a> {
+    cache: &'static str,
+    key: &'a std::path::Path,
+}
+
+impl Drop for Held<'_> {
+    fn drop(&mut self) {
+        emit("Release", self.cache, self.key);
+    }
+}
+
+/// The cache lock has just been acquired.
+pub fn acquired<'a>(cache: &'static str, key: &'a std::path::Path) -> Held<'a> {
+    emit("Acquire", cache, key);
+    Held { cache, key }
+}
